@@ -57,6 +57,10 @@ type EntryV2 = Entry
 
 // ToPlain converts a CBOR serializable identity signature to a plain IdentitySignature.
 func (c *IdentitySignature) ToPlain() (*identityprovider.IdentitySignature, error) {
+	if c == nil {
+		return nil, errmsg.ErrIdentitySigDeserialization
+	}
+
 	publicKey, err := hex.DecodeString(c.PublicKey)
 	if err != nil {
 		return nil, errmsg.ErrIdentitySigDeserialization.Wrap(err)
@@ -305,6 +309,10 @@ func (c *Entry) ToPlain(out iface.IPFSLogEntry, provider identityprovider.Interf
 }
 
 func (c *LamportClock) ToPlain(out iface.IPFSLogLamportClock) error {
+	if c == nil {
+		return errmsg.ErrClockDeserialization
+	}
+
 	id, err := hex.DecodeString(c.ID)
 	if err != nil {
 		return errmsg.ErrClockDeserialization.Wrap(err)
